@@ -27,6 +27,8 @@ let init () =
         let p = InfoMpeg.mpeg_p_of_list (zs [vb; lb; prot; bri; sri; pad; priv; mode; tail]) in
         InfoXing.build_tag_frame p (z_of_int 36)
           (InfoXing.build_vbri_tag (z delay) (z quality) (z bytes) (z frames) (z entries) (z scale) (z esize) (z tocframes))
+      | "ac3", _ -> InfoAc3.build_ac3_frame (InfoAc3.ac3_p_of_list (zs a))
+      | "eac3", _ -> InfoAc3.build_eac3_frame (InfoAc3.eac3_p_of_list (zs a))
       | "flac", _ -> InfoFlac.build_flac_streaminfo (InfoFlac.flac_p_of_list (zs a))
       | "flac_write", _ ->
         (match InfoFlac.flac_streaminfo_write (InfoFlac.flac_p_of_list (zs a)) with
@@ -66,6 +68,7 @@ let init () =
     zl (match fmt with
       | "mpeg" -> InfoMpeg.decode_mpeg_frame d
       | "mpeg_vbr" -> InfoXing.decode_mpeg_vbr d
+      | "ac3" -> InfoAc3.decode_ac3 d
       | "flac" -> InfoFlac.decode_flac_streaminfo d
       | "wave" -> InfoIff.decode_wave_fmt d (match a with [x] -> opt_z x | _ -> failwith "data size")
       | "aiff" -> InfoIff.decode_aiff_comm d
